@@ -8,3 +8,4 @@ pub mod hist;
 pub mod oracle;
 pub mod runner;
 pub mod rrdpview;
+pub mod hooks;
